@@ -18,7 +18,7 @@ NCASES = {"quick": 600, "thorough": 6000}
 GEN_BUDGET_S = {"quick": 30, "thorough": 600}
 MAX_SHRINKS = 8
 MAX_PER_CLASS = 3     # distinct (stream/topology) keys listed per failure class
-STREAMS = ["clean"] * 11 + ["overlap"] * 3 + ["outside"] * 2 + ["malformed"] * 2 + ["internal"] * 2 + ["hetero"] * 3 + ["tiers"] * 3 + ["allow"] * 3 + ["nomem"] * 3
+STREAMS = ["clean"] * 11 + ["overlap"] * 3 + ["outside"] * 2 + ["malformed"] * 2 + ["internal"] * 2 + ["hetero"] * 3 + ["tiers"] * 3 + ["allow"] * 3 + ["nomem"] * 3 + ["names"] * 3
 
 
 class Ev:
